@@ -30,6 +30,7 @@ def decNatOf : Option (Nat × Nat × Bytes) → UInt32 × Int
 def decNatTo (b : Bytes) (r : UInt32 × Int) : Option (Nat × Nat × Bytes) :=
   if r.2 = 0 then none else some (r.1.toNat, r.2.toNat, b.drop r.2.toNat)
 
+tolerant
 /-- `(buffer).decodeNatural` (decode/buffer.go) = `Dec.decodeNatural`, value as `uint32`, width as `int`,
     `(0, 0)` for `none`. -/
 theorem decodeNatural_code_tie (b : Bytes) :
@@ -71,6 +72,7 @@ example : decode_buffer_decodeNatural [0x03, 0x00, 0x80, 0x3f] = (0x0fe00000, 4)
 example : decode_buffer_decodeNatural [0x03, 0x00, 0x80] = (0, 0) ∧ Dec.decodeNatural [0x03, 0x00, 0x80] = none := by
   decide
 
+tolerant
 /-- the converse reading of `decodeNatural_code_tie`: the model's `Dec.decodeNatural` is determined by the
     generated function (`n == 0` ↦ `none`, otherwise value, width and `b[n:]`). -/
 theorem decodeNatural_model_eq (b : Bytes) :
@@ -85,6 +87,7 @@ theorem decodeNatural_model_eq (b : Bytes) :
     have h1 : (UInt32.ofNat u).toNat = u := UInt32.toNat_ofNat_of_lt' (by simp [UInt32.size]; omega)
     simp only [decNatOf, decNatTo, h0, if_false, h1, Int.toNat_natCast]
 
+tolerant
 /-- `(buffer).decodeReal` (decode/buffer.go) = `Dec.decodeReal`; `n` = bytes consumed, `(0, 0)` for `none`. -/
 theorem decodeReal_code_tie (b : Bytes) :
     decode_buffer_decodeReal b = decResOf id (⟨0⟩ : F32) b (Dec.decodeReal b) := by
@@ -98,12 +101,14 @@ theorem decodeReal_code_tie (b : Bytes) :
     rcases hn with rfl | rfl | rfl <;>
       simp [decNatOf, decResOf, decAux_real u hu, decAux_shl2, F32.ofNatBits] <;> omega
 
+tolerant
 /-- the converse reading of `decodeReal_code_tie`: the model's `Dec.decodeReal` is determined by the generated
     function (`n == 0` ↦ `none`, otherwise the value and `b[n:]`). -/
 theorem decodeReal_model_eq (b : Bytes) : Dec.decodeReal b = decResTo b (decode_buffer_decodeReal b) := by
   rw [decodeReal_code_tie, decResTo_decResOf _ _ _ _ (fun _ _ h => decAux_decodeReal_rest h)]
   cases Dec.decodeReal b <;> simp
 
+tolerant
 /-- `(buffer).decodeCoordinate` (decode/buffer.go) = `Dec.decodeCoordinate`; `n` = bytes consumed,
     `(0, 0)` for `none`. -/
 theorem decodeCoordinate_code_tie (b : Bytes) :
@@ -119,12 +124,14 @@ theorem decodeCoordinate_code_tie (b : Bytes) :
       simp [decNatOf, decResOf, decAux_coord1 u hu, decAux_coord2 u hu, decAux_f32_64, decAux_shl2,
         F32.ofNatBits] <;> omega
 
+tolerant
 /-- the converse reading of `decodeCoordinate_code_tie`: the model's `Dec.decodeCoordinate` is determined by the generated
     function (`n == 0` ↦ `none`, otherwise the value and `b[n:]`). -/
 theorem decodeCoordinate_model_eq (b : Bytes) : Dec.decodeCoordinate b = decResTo b (decode_buffer_decodeCoordinate b) := by
   rw [decodeCoordinate_code_tie, decResTo_decResOf _ _ _ _ (fun _ _ h => decAux_decodeCoordinate_rest h)]
   cases Dec.decodeCoordinate b <;> simp
 
+tolerant
 /-- `(buffer).decodeZeroToOne` (decode/buffer.go) = `Dec.decodeZeroToOne`; `n` = bytes consumed,
     `(0, 0)` for `none`. -/
 theorem decodeZeroToOne_code_tie (b : Bytes) :
@@ -140,12 +147,14 @@ theorem decodeZeroToOne_code_tie (b : Bytes) :
       simp [decNatOf, decResOf, decAux_real u hu, decAux_f32_120, decAux_f32_15120, decAux_shl2,
         F32.ofNatBits] <;> omega
 
+tolerant
 /-- the converse reading of `decodeZeroToOne_code_tie`: the model's `Dec.decodeZeroToOne` is determined by the generated
     function (`n == 0` ↦ `none`, otherwise the value and `b[n:]`). -/
 theorem decodeZeroToOne_model_eq (b : Bytes) : Dec.decodeZeroToOne b = decResTo b (decode_buffer_decodeZeroToOne b) := by
   rw [decodeZeroToOne_code_tie, decResTo_decResOf _ _ _ _ (fun _ _ h => decAux_decodeZeroToOne_rest h)]
   cases Dec.decodeZeroToOne b <;> simp
 
+tolerant
 /-- `isNaNOrInfinity` (decode/decode.go) = `Dec.isNaNOrInfinity`: `bits&0x7f800000 == 0x7f800000` is
     "exponent field = 255". -/
 theorem isNaNOrInfinity_code_tie (f : F32) : decode_isNaNOrInfinity f = Dec.isNaNOrInfinity f := by
